@@ -14,7 +14,7 @@ from vf.checks import c05
 SHARDS = {'quick': 16, 'thorough': 64}
 TIMEOUT = {'quick': 1800, 'thorough': 7200}
 MUST_HIT = ['Consistency.delta', 'Census.ACT_SMT', 'Census.V_VAL', 'Chain.statements', 'Chain.parameters',
-            'Chain.navigation', 'Position.statement', 'Position.value', 'Scope.variable-block',
+            'Chain.navigation', 'Position.statement', 'Position.legacy-keyword-statement', 'Position.value', 'Scope.variable-block',
             'Typing.comparison', 'Typing.literal', 'Typing.variable', 'Typing.attribute', 'Typing.parameter',
             'Typing.selection', 'Typing.cardinality', 'Home.function', 'Home.bridge', 'Home.operation',
             'Home.derived']
@@ -175,6 +175,9 @@ def check(ctx, rng, home):
 
     def smt_of(node):
         ctx.hit('Position.statement')
+        if node.cls in ('InvocationStatementNode', 'AssignmentNode') and \
+                text[node.pos[4]:node.pos[5]].split(None, 1)[0].lower() in ('bridge', 'transform'):
+            ctx.hit('Position.legacy-keyword-statement')
         cands = [s for s in smt_at.get((node.pos[0], node.pos[1]), [])
                  if s.EndPosition == node.pos[3] and s.Label == text[node.pos[4]:node.pos[5]]]
         if len(cands) != 1:
